@@ -19,7 +19,7 @@ Theorem C06_text_rule :
   normalize_inline ctx (Link url title lt l) =
   if is_ref_url url then
     match lt with
-    | Regular => match ctx (key_from_file_name url) with
+    | Regular => match ctx (key_name url) with
                  | Some t => Link url title Regular [Str t]
                  | None => Link url title Regular l
                  end
@@ -33,7 +33,7 @@ Check C06_text_rule :
   normalize_inline ctx (Link url title lt l) =
   if is_ref_url url then
     match lt with
-    | Regular => match ctx (key_from_file_name url) with
+    | Regular => match ctx (key_name url) with
                  | Some t => Link url title Regular [Str t]
                  | None => Link url title Regular l
                  end
